@@ -20,6 +20,7 @@ tables (token grammar, counts explicit):
   c17.cdser    <g c>… | -                                   -> (ClassDef::serialize) ok <hex> | trap
   c17.gdef     <plan> ; <major> <minor> sub(classdef) sub(attachlist) sub(ligcarets) sub(classdef)
                sub(marksets) sub(store)                     -> ok <hex> | dropped | fail | trap
+  c17.gdefsem  same request -> ok <the written GDEF in the request's token grammar> | dropped | fail | trap
   c17.gdefplan same request -> vmap=<old:new,…|-> inner=<a b|…,…> sets=<old:new,…|->
   c17.covget   <coverage> <g>…  -> C16's reader `Coverage.get` per glyph (`-` = none)
   c17.cdget    <classdef> <g>…  -> C16's reader `ClassDef.get` per glyph
@@ -222,6 +223,53 @@ def fmtOpt (o : Option Nat) : String :=
   | some v => toString v
   | none => "-"
 
+/-! ### the written GDEF in the token grammar of the requests (what read-fonts parses from the real
+output is printed in the same grammar by the harness) -/
+
+def tokCov : Coverage → String
+  | .fmt1 xs => if xs.isEmpty then "1 0" else s!"1 {xs.length} {joinNats xs}"
+  | .fmt2 rs => rs.foldl (fun acc r => acc ++ s!" {r.start} {r.end_} {r.startCov}") s!"2 {rs.length}"
+
+def tokClassDef : ClassDef → String
+  | .fmt1 st cs => if cs.isEmpty then s!"1 {st} 0" else s!"1 {st} {cs.length} {joinNats cs}"
+  | .fmt2 rs => rs.foldl (fun acc r => acc ++ s!" {r.start} {r.end_} {r.cls}") s!"2 {rs.length}"
+
+def tokOpt {α : Type} (o : Option α) (f : α → String) : String :=
+  match o with
+  | none => "a"
+  | some x => "o " ++ f x
+
+def tokCaret : CaretOut → String
+  | .plain bs => s!"{bs.getD 1 0} {toHex bs}"
+  | .f3 coord dev =>
+    if dev.length = 6 ∧ dev.getD 4 0 = 128 ∧ dev.getD 5 0 = 0 then
+      s!"3 {coord} v {dev.getD 0 0 * 256 + dev.getD 1 0} {dev.getD 2 0 * 256 + dev.getD 3 0}"
+    else s!"3 {coord} d {toHex dev}"
+
+def tokAttach (a : AttachOut) : String :=
+  a.points.foldl (fun acc p => acc ++ " " ++ toHex p)
+    s!"{tokCov a.cov.toCoverage} {a.points.length} {a.points.length}"
+
+def tokLig (l : LigOut) : String :=
+  l.ligs.foldl (fun acc cs => cs.foldl (fun acc c => acc ++ " " ++ tokCaret c) (acc ++ s!" l {cs.length}"))
+    s!"{tokCov l.cov.toCoverage} {l.ligs.length} {l.ligs.length}"
+
+def tokSets (m : Nat × List CovW) : String :=
+  m.2.foldl (fun acc w => acc ++ " " ++ tokCov w.toCoverage) s!"{m.1} {m.2.length}"
+
+def tokStore (st : Nat × SubsetHvar.StoreOut) : String :=
+  let regs := st.2.regions.foldl (fun acc r => r.foldl (fun acc a => acc ++ s!" {a.1} {a.2.1} {a.2.2}") acc)
+    s!"{st.1} r {st.2.axisCount} {st.2.regions.length}"
+  st.2.subs.foldl (fun acc t =>
+    acc ++ s!" o {t.itemCount} {t.wordDeltaCount} {t.regionIndexes.length}" ++
+      t.regionIndexes.foldl (fun a r => a ++ s!" {r}") "" ++ " " ++ toHex t.data)
+    (regs ++ s!" {st.2.subs.length}")
+
+def tokGdef (o : GdefOut) : String :=
+  s!"{o.major} {o.minor} {tokOpt o.glyphClassDef tokClassDef} {tokOpt o.attachList tokAttach} " ++
+  s!"{tokOpt o.ligCaretList tokLig} {tokOpt o.markAttachClassDef tokClassDef} " ++
+  s!"{tokOpt o.markGlyphSets tokSets} {tokOpt o.varStore tokStore}"
+
 def handle (cmd : String) (args : List String) : Option String :=
   match cmd with
   | "c17.cov" => do
@@ -262,6 +310,18 @@ def handle (cmd : String) (args : List String) : Option String :=
     | .dropped => some "dropped"
     | .fail => some "fail"
     | .trap => some "trap"
+  | "c17.gdefsem" => do
+    -- the structured output the theorems speak about; "dropped" also when the layout overflows
+    let (p, ts) ← pPlan args
+    let (g, []) ← pGdef ts | none
+    match subsetGdefSem p g with
+    | .error .hard => some "fail"
+    | .error .trap => some "trap"
+    | .error _ => some "dropped"
+    | .ok o =>
+      match encodeGdef o with
+      | none => some "dropped"
+      | some _ => some s!"ok {tokGdef o}"
   | "c17.gdefplan" => do
     let (p, ts) ← pPlan args
     let (g, []) ← pGdef ts | none
